@@ -35,6 +35,11 @@ Theorem C08_get_status_verdict : forall s w errno mid d rest, no_fault w -> next
   result_of (snd (cstep s w OGetStatus)) =
     if Z.eqb errno 0 then match status_from_wire d with Some ws => RStatus ws | None => RFail EEOF end else RFail (EErrno errno).
 Proof. exact get_status_verdict. Qed.
+(* GetRules returns exactly the rule payloads the kernel sent for this request, in order *)
+Theorem C08_get_rules_verdict : forall s w errno mid rs rest, no_fault w -> next_seq s <> 0 -> (0 <= errno < 2^31)%Z ->
+  answers (next_seq s) errno (rscript w) mid -> rule_stream (next_seq s) rs mid rest ->
+  result_of (snd (cstep s w OGetRules)) = if Z.eqb errno 0 then RRules rs else RFail (EErrno errno).
+Proof. exact get_rules_verdict. Qed.
 (* a reply carrying another request's sequence number is never accepted as success *)
 Theorem C08_foreign_seq_rejected : forall seq q ty d ns ts rest, seq <> 0 -> q <> 0 -> q <> seq -> noise ns ->
   (length ts <= 9)%nat -> forallb transient ts = true ->
@@ -53,4 +58,5 @@ Print Assumptions C08_set_verdict.
 Print Assumptions C08_delete_rule_verdict.
 Print Assumptions C08_add_rule_verdict.
 Print Assumptions C08_get_status_verdict.
+Print Assumptions C08_get_rules_verdict.
 Print Assumptions C08_foreign_seq_rejected.
